@@ -59,8 +59,8 @@ KINDS_ERR = {
     "tty.tcdrain": "termios.error", "tty.select": "EINTR", "tty.read": "OSError",
     "tty.ioctl": None, "tty.get_size": None, "clock": None, "predicate": "ValueError",
     "out.write": "OSError", "out.flush": "OSError", "sleep": None, "render": "RuntimeError",
+    "finalize": "RuntimeError",
 }
-CLEANUP_WRITE = re.compile(r"^(\n|\x1b\[\d+B|\x1b\[\?25h|)$")
 
 
 def gen_attrs(ch):
@@ -101,6 +101,7 @@ def run(ch, ctx, fault=None):
     tty.delay_fn = (lambda kind: 0) if dmode == "zero" else \
         (lambda kind: ch.int("delay", 0, 60_000_000))
     hooks = simrenderable.Hooks(k)
+    hooks.finalize_seam = True
     sites = []
     fired_info = {}
 
@@ -245,17 +246,11 @@ def run(ch, ctx, fault=None):
                 for kind, n in k.counts.items():
                     n0 = before.get(kind, 0)
                     if n > n0 and kind in KINDS_ERR:
+                        # every call is a fault position, draw()'s own clean-up writes and the
+                        # caller's render-data finalizer included: the statement says "at any
+                        # point" (only the restoring tcsetattr itself is never pre-empted, see
+                        # FakeTermios)
                         hi = n
-                        if kind == "out.write":
-                            texts = out.write_log[w0:]
-                            cut = len(texts)
-                            for idx, tx in enumerate(texts):
-                                if CLEANUP_WRITE.match(tx):
-                                    cut = idx
-                                    break
-                            hi = n0 + cut
-                        elif kind == "out.flush" and op.startswith("draw"):
-                            hi = n - (2 if op == "draw_anim" else 1)
                         for kk in range(n0 + 1, hi + 1):
                             sites.append((kind, kk))
         ctx.extra["sites"] = sites
